@@ -95,7 +95,9 @@ def _ac_common(n):
         "number": st.just(n), "power": st.sampled_from(["off", "on"]),
         "mode": st.sampled_from(["auto", "heat", "dry", "fan", "cool", "auto_heat", "auto_cool"]),
         "fan": st.sampled_from(con.FANS4), "spill": st.booleans(), "timer_set": st.booleans(), "sp": st.integers(10, 35),
-        "temp_raw": st.integers(0, 200).map(lambda v: v * 10), "error_code": st.one_of(st.just(0), st.integers(1, 65535))})
+        "temp_raw": st.integers(0, 200).map(lambda v: v * 10),
+        # few distinct codes, so that consecutive reports often carry the SAME non-zero code with other attributes changed
+        "error_code": st.one_of(st.just(0), st.sampled_from([5, 5, 0x0101]), st.integers(1, 65535))})
 
 
 def _zone_common(n):
